@@ -204,11 +204,13 @@ def h_var_basic(ky, kx):
     prove("base", And(t.base.y == offy[-1], t.base.x == offx[-1]))
     cy, cx = t.chunks
     prove("chunks_roundtrip", And(*[a == b for a, b in zip(cy, chy)], *[a == b for a, b in zip(cx, chx)], len(cy) == ky, len(cx) == kx))
-    r, c = Int("r", 0, ky - 1), Int("c", 0, kx - 1)
-    sy, sx = t[r, c]
+    # numpy-style indices: -count .. count-1 (negative counts from the end)
+    r_, c_ = Int("r", -ky, ky - 1), Int("c", -kx, kx - 1)
+    r, c = ite(r_ < 0, r_ + ky, r_), ite(c_ < 0, c_ + kx, c_)
+    sy, sx = t[r_, c_]
     prove("region_y", And(sy.start == _sel(offy, r), sy.stop == _sel(offy, r + 1)))
     prove("region_x", And(sx.start == _sel(offx, c), sx.stop == _sel(offx, c + 1)))
-    ts = t.tile_shape((r, c))
+    ts = t.tile_shape((r_, c_))
     prove("tile_shape", And(ts.y == sy.stop - sy.start, ts.x == sx.stop - sx.start))
     py, px = Int("py"), Int("px")
     assume(And(sy.start <= py, py < sy.stop, sx.start <= px, px < sx.stop))
@@ -266,6 +268,14 @@ def h_var_oob(ky, kx):
         pass
     else:
         prove("getitem_outside_raises", False)
+    q = Int("q")
+    assume(Or(q >= ky, q < -ky))
+    try:
+        t.tile_shape((q, 0))
+    except IndexError:
+        pass
+    else:
+        prove("tile_shape_outside_raises", False)
 
 
 # ---- T3: clip_tiles ------------------------------------------------------------------------------
